@@ -385,7 +385,7 @@ impl Decode for HunkHeader {
         };
 
         let mut header = HunkHeader::default();
-        let s = line
+        let s = strip_newline(&line)
             .strip_prefix("@@ -")
             .ok_or(Error::syntax("missing '@@ -'"))?;
 
@@ -500,16 +500,21 @@ impl Decode for Hunk<Modification> {
 
 impl Encode for Hunk<Modification> {
     fn encode(&self, w: &mut Writer) -> Result<(), Error> {
-        // TODO: Remove trailing newlines accurately.
-        // `trim_end()` will destroy diff information if the diff has a trailing whitespace on
-        // purpose.
-        w.magenta(self.header.from_utf8_lossy().trim_end())?;
+        w.magenta(strip_newline(&self.header.from_utf8_lossy()))?;
         for l in &self.lines {
             l.encode(w)?;
         }
 
         Ok(())
     }
+}
+
+/// Strip the line terminator, and nothing else, from a line of a diff.
+///
+/// Trailing white space (including a carriage return) is part of the line's
+/// content and must survive encoding.
+fn strip_newline(line: &str) -> &str {
+    line.strip_suffix('\n').unwrap_or(line)
 }
 
 impl Decode for Modification {
@@ -544,15 +549,15 @@ impl Encode for Modification {
     fn encode(&self, w: &mut Writer) -> Result<(), Error> {
         match self {
             Modification::Deletion(radicle_surf::diff::Deletion { line, .. }) => {
-                let s = format!("-{}", String::from_utf8_lossy(line.as_bytes()).trim_end());
+                let s = format!("-{}", strip_newline(&String::from_utf8_lossy(line.as_bytes())));
                 w.write(s, term::Style::new(term::Color::Red))?;
             }
             Modification::Addition(radicle_surf::diff::Addition { line, .. }) => {
-                let s = format!("+{}", String::from_utf8_lossy(line.as_bytes()).trim_end());
+                let s = format!("+{}", strip_newline(&String::from_utf8_lossy(line.as_bytes())));
                 w.write(s, term::Style::new(term::Color::Green))?;
             }
             Modification::Context { line, .. } => {
-                let s = format!(" {}", String::from_utf8_lossy(line.as_bytes()).trim_end());
+                let s = format!(" {}", strip_newline(&String::from_utf8_lossy(line.as_bytes())));
                 w.write(s, term::Style::default().dim())?;
             }
         }
